@@ -25,14 +25,14 @@ SIG = {
                                 # injective -- KMAC.verify() compares SHA3-256(secret || tag) values, secret = 16 fresh random bytes
                                 '(cap == 64 and rounds == 24 and pad == 6 and pos == 0 and n == 32) ==> spec.hashprim.sha3_256_inv(result) == data']},
     'sha3_256_inv': {'sort': 'bytes', 'uf': True},
-    'md': {'sort': 'bytes', 'uf': True},
+    'md': {'sort': 'bytes', 'uf': True, 'facts': ['len(result) == spec.hashprim.md_len(alg)']},
     'md_len': {'sort': 'int', 'uf': True, 'facts': ['result >= 1']},
     'blake2': {'sort': 'bytes', 'uf': True,
                'facts': ['digest_bytes >= 0 ==> len(result) == digest_bytes',
-                         # ASSUMED CRYPTOGRAPHIC FACT (b): BLAKE2s-160 keyed with 16 random bytes is injective in the data -- the
-                         # verify() methods of HMAC, Poly1305, BLAKE2b/s compare BLAKE2s-160(secret, tag) values
-                         '(variant == 32 and digest_bytes == 20 and len(key) == 16) ==> spec.hashprim.blake2s160_inv(key, result) == data']},
-    'blake2s160_inv': {'sort': 'bytes', 'uf': True},
+                         # ASSUMED CRYPTOGRAPHIC FACT (b): BLAKE2s-160 / BLAKE2b-160 keyed with 16 random bytes is injective in the data --
+                         # the verify() methods of HMAC, Poly1305, BLAKE2s (BLAKE2s-160) and BLAKE2b (BLAKE2b-160) compare MAC(secret, tag) values
+                         '(digest_bytes == 20 and len(key) == 16) ==> spec.hashprim.blake2_160_inv(variant, key, result) == data']},
+    'blake2_160_inv': {'sort': 'bytes', 'uf': True},
     'poly1305': {'sort': 'bytes', 'uf': True, 'facts': ['len(result) == 16']},
     'aes_block': {'sort': 'bytes', 'uf': True, 'facts': ['len(result) == 16']},
     'chacha20_block0': {'sort': 'bytes', 'uf': True, 'facts': ['len(result) == 32']},
@@ -72,7 +72,7 @@ def sha3_256_inv(digest):
     pass
 
 
-def blake2s160_inv(key, digest):
+def blake2_160_inv(variant, key, digest):
     pass
 
 
